@@ -1070,40 +1070,52 @@ def check_c12(run):
     run.theorem_step(["C12"])
     nrand = 60 if run.tier == "quick" else 600
     decl_lists = front_specs(run, nrand, max_decls=10)
-    texts, meta = [], []
-    for di, decls in enumerate(decl_lists):
-        texts.append(specgen.print_spec(decls, random.Random(run.seed + di), rich=(di % 3 != 0)))
+    texts, meta, spans = [], [], []
+
+    def emit(decls, rng, rich):
+        sp = []
+        texts.append(specgen.print_spec(decls, rng, rich=rich, bt_spans=sp))
         meta.append(decls)
+        spans.append(sp)
+    for di, decls in enumerate(decl_lists):
+        emit(decls, random.Random(run.seed + di), (di % 3 != 0))
     # declarator / spelling matrix through the declaration model
     for t in specgen.U32_SPELL + specgen.I32_SPELL + specgen.U64_SPELL + specgen.I64_SPELL + ["float", "double", "bool"]:
         decls = [("struct", "sp", [(t, "x", "", False), (t, "y", "[3]", False)]), ("typedef", t, "tsp", "")]
-        texts.append(specgen.print_spec(decls, random.Random(len(texts)), rich=True))
-        meta.append(decls)
+        emit(decls, random.Random(len(texts)), True)
     for sfx in ["", "[4]", "[KK]", "<>", "<5>", "<KK>"]:
         decls = [("const", "KK", "6"), ("struct", "dd", [("opaque", "o", sfx, False), ("node_t", "n", sfx, False)] +
                  ([("string", "s", sfx, False)] if not sfx.startswith("[") else [])), ("struct", "node_t", [("int", "v", "", False), ("node_t", "next", "", True)]),
                  ("typedef", "node_t", "tdn", sfx), ("typedef", "opaque", "tdo", sfx)]
-        texts.append(specgen.print_spec(decls, random.Random(len(texts)), rich=True))
-        meta.append(decls)
+        emit(decls, random.Random(len(texts)), True)
     decls = [("enum", "e1", [("A", "0"), ("B", "0x1F"), ("C", "0X10" if False else "16")]),
              ("union", "uu", "e1", "which", [(["A", "B"], ("data", "int", "x")), (["C"], ("void",))], ("data", "hyper", "rest")),
              ("union", "uv", "unsigned int", "k", [(["1", "2", "3"], ("void",)), (["4"], ("data", "string", "s"))], ("void",))]
-    texts.append(specgen.print_spec(decls, random.Random(3), rich=True))
-    meta.append(decls)
+    emit(decls, random.Random(3), True)
     # fall-through chains ending in a default arm (data / void), const and enum labels
     for arm in (("data", "unsigned hyper", "rest"), ("void",), ("data", "opaque", "o")):
         decls = [("const", "THREE", "3"), ("enum", "ee", [("P", "1"), ("Q", "2"), ("R", "7")]),
                  ("union", "fd1", "int", "k", [(["1"], ("data", "int", "a"))], ("falls", ["2", "THREE"], arm)),
                  ("union", "fd2", "ee", "k", [(["P"], ("void",))], ("falls", ["Q"], arm)),
                  ("union", "fd3", "unsigned int", "k", [], ("falls", ["5", "6", "7"], arm))]
-        texts.append(specgen.print_spec(decls, random.Random(len(texts)), rich=(arm[0] == "void")))
-        meta.append(decls)
+        emit(decls, random.Random(len(texts)), (arm[0] == "void"))
     try:
         obs = xv.run_front(texts, "c12")
     except TieBroken as e:
         run.oblige("front harness runs", False, str(e))
         return
     k_front(run, obs, "c12", want_k2=False)
+    try:
+        cases = [(o, specgen.sdecl_terms(d, sp, xv.coq_text)) for o, d, sp in zip(obs, meta, spans)]
+        n5, d5 = xv.k5(cases, "c12")
+        detail = ""
+        if d5:
+            detail = "code %d on: %s" % (d5[0][1], obs[d5[0][0]]["text"][:400])
+        run.oblige("K5: Source.tree_of = erased parse tree, decl_okb, Ast of item_of = real Ast on %d declaration lists "
+                   "(premises of C12_walk / C12_ast hold of real specifications)" % n5, not d5, detail)
+        run.cov["k5_cases"] = n5
+    except TieBroken as e:
+        run.oblige("K5 runs", False, str(e))
     for o, decls in zip(obs, meta):
         run.case(o["text"], {"text": o["text"][:160]})
         want = specgen.expected_ast(decls)
